@@ -91,13 +91,13 @@ def handleSched (case impl : List String) : String :=
       let segs := Proto.segments obs.trace
       let seg1 := segs.headD []
       let c1 := Proto.choicesOf a.adopt seg1
-      let (s1, out1) := Run.build g a c1
+      let (s1, _, out1) := Run.build g a c1 ()
       -- a reload continues with a fresh Work on the (here: unchanged) manifest
       let (tr, out) := match out1 with
         | .reload n =>
           let seg2 := (segs.drop 1).headD []
           let c2 := Proto.choicesOf a.adopt seg2
-          let (s2, out2) := Run.buildReloaded g a c2 n
+          let (s2, _, out2) := Run.buildReloaded g a c2 () n
           (s1.trace.reverse ++ s2.trace.reverse, out2)
         | o => (s1.trace.reverse, o)
       let v := Mon.verdicts g a (obs.result.splitOn " ") obs.trace
